@@ -258,6 +258,10 @@ def find_binding(lib, name, f, spec):
     tried = 0
     for perm in itertools.permutations(range(len(pre))):
         for lets in itertools.permutations(L, len(pats)) if len(pats) <= len(L) else []:
+            # a pattern parameter that carries the name of a docstring letter IS that letter (a lemma that is symmetric up to
+            # renaming its parameters would otherwise be accepted with its arguments exchanged)
+            if any(pn in L and pn != l for pn, l in zip(pats, lets)):
+                continue
             tried += 1
             kwargs = {}
             for pn, l in zip(pats, lets):
